@@ -47,7 +47,9 @@ struct LogRecordSetterTrait<EventId>
   template <class ArgumentType>
   inline static LogRecord *Set(LogRecord *log_record, ArgumentType &&arg) noexcept
   {
-    log_record->SetEventId(arg.id_, nostd::string_view{arg.name_.get()});
+    // EventId{id} (no name) keeps name_ == nullptr: a missing name is the empty name
+    log_record->SetEventId(
+        arg.id_, arg.name_ ? nostd::string_view{arg.name_.get()} : nostd::string_view{});
 
     return log_record;
   }
